@@ -51,6 +51,29 @@ def body(c):
     fb[0]["codes2"][1] = [fb[0]["codes2"][1][0], (fb[0]["codes2"][1][1] + 1) % 100]
     c.negative_controls("Trace_QSym", [("wrong-code", n1), ("wrong-dq", n2), ("wrong-dtype", n3), ("not-idempotent", fb)],
                         constants={"KSet": "{}", "Shapes": "{}"})
+    # wide domain: the 2^16 value space of float16 / bfloat16 (stratified in the quick tier), boundary-directed
+    # float32 values, per-axis scales; judged by Trace_QNum in exact arithmetic with the tolerance of DESIGN.md 7.1
+    devs = c.dev_constants(["Dev_C16_AbsmaxOverflow", "Dev_C16_F8ZeroScale", "Dev_C02_NoZeroHull"])
+    wide = c.harness("h_qnum.py", {"mode": "sym_wide", "seed": c.seed, "half_step": 16 if c.quick else 1,
+                                   "nscales": 3 if c.quick else 6, "random": 300 if c.quick else 3000}, timeout=3000)["traces"]
+    wres = c.validate("Trace_QNum", wide, chunk=24, constants=devs, timeout=1500)
+    c.judge(wide, wres, describe=lambda tr: {k: tr[0].get(k) for k in ("qt", "fmt", "axis", "shape", "tag", "route")})
+    c.extra["wide_events"] = len(wide)
+    c.extra["wide_elements"] = sum(len(t[0]["x"]) for t in wide)
+    c.extra["wide_excluded_unrepresentable_grid_points"] = sum(t[0]["nonfinite_dq"] for t in wide)
+    c.extra["half_precision_values_per_format"] = 65536 // (16 if c.quick else 1)
+    def pick(qt, fmt, lo, hi):
+        for t in wide:
+            if t[0]["qt"] == qt and t[0]["fmt"] == fmt:
+                for k, cc in enumerate(t[0]["code"]):
+                    if lo <= cc[1] <= hi and t[0]["dq"][k]["s"] != 2:
+                        return copy.deepcopy(t), k
+        raise MachineryError("no element for negative control")
+    w, i = pick("qint8", "float16", 2, 100)
+    w[0]["code"][i] = [w[0]["code"][i][0], w[0]["code"][i][1] + 1]
+    w2, i = pick("qfloat8_e5m2", "float32", 40, 100)
+    w2[0]["code2"][i] = [w2[0]["code2"][i][0], w2[0]["code2"][i][1] - 1]
+    c.negative_controls("Trace_QNum", [("wide-code-off-by-one", w), ("wide-not-idempotent", w2)], constants=devs)
     c.assumptions += ["lattice domain: power-of-two scales, elements on the fine grid (all float operations exact)"]
 
 
